@@ -24,6 +24,10 @@ def run(ctx):
         "ignored and otherwise re-raised with a bare raise; Dispatcher.process only warns about collected exceptions; D3 a raising "
         "callback reaches the plan as the response of the emitting message and an unhandled one fails the run (C12.D1, C02.D1). "
         "Not decided: emission from monitor threads, delivery counts for callables the registry de-duplicates.")
+    # a callable that is subscribed again after having been unsubscribed really is connected again
+    from . import c18
+
+    c18.registry_connect_disconnect_inverse(ctx, rm.repo, "C19.D1-resubscription-takes-effect")
     # D1 chain
     em = rm.m("emit")
     ok = [A.norm(s) for s in A.body(em.node)] == ["self.emit_sync(name, doc)"]
